@@ -243,6 +243,10 @@ def rule_term_kernels(ctx: Ctx, which: Optional[List[str]] = None, rule: str = "
             p = _cmp_term(r, {"x": sym("a_x"), "y": sym("a_y")}, sym("a_c"))
             if p:
                 return "absent source: " + p
+            r = ta.method(t, "rename_variable", [x, x])  # a variable renamed to itself: nothing changes
+            p = _cmp_term(r, {"x": sym("a_x"), "y": sym("a_y")}, sym("a_c"))
+            if p:
+                return "source equal to target (x renamed to x must be the identity): " + p
             if coefs(t).keys() != {"x", "y"}:
                 return "the operand was modified"
             return None
@@ -428,7 +432,7 @@ def _solve_rows_stub(ta: TermAlg, pos, kw):
     return out
 
 
-def _reduction_patterns(prog: Program, strategy: int, nvars: int, refine: bool):
+def _reduction_patterns(prog: Program, strategy: int, nvars: int, refine: bool, concrete: bool = False):
     """Interpret _context_reduction on rows with symbolic coefficients under every sign pattern.
     strategy 5: _get_tlp_context is interpreted, the LP replaced by 'status 0, every context row active';
     strategy 1: the Kaykobad selection is replaced by an arbitrary one (every row is handed over).
@@ -437,25 +441,45 @@ def _reduction_patterns(prog: Program, strategy: int, nvars: int, refine: bool):
 
     from .ratnf import sign_under
 
+    from .termalg import sym as _sym
+
     fi = prog.func("PolyhedralTermList._context_reduction")
     x, y, i = Key("x"), Key("y"), Key("i")
-    names = ["t1", "a1", "e1"] + (["s"] if nvars == 1 else ["t2", "a2", "e2"])
+    names = ["t1", "a1", "e1"] + (["s"] if nvars == 1 else ["t2", "a2", "e2"] + (["b1"] if nvars == 3 else []))
     bad: List[str] = []
     undec: List[str] = []
     returned = 0
-    for combo in product([1, -1], repeat=len(names)):
+    if concrete:
+        # small integers instead of symbols: magnitudes matter when a row couples two forbidden variables
+        grid = {"t1": [1, -1, 4], "t2": [1, -1, 4], "a1": [1, -2], "a2": [1, -2], "b1": [3, -3, 1], "e1": [1], "e2": [1], "s": [1]}
+        combos = list(product(*[grid[n_] for n_ in names]))
+    else:
+        combos = list(product([1, -1], repeat=len(names)))
+    for combo in combos:
         signs = dict(zip(names, combo))
         ta = TermAlg(prog)
         ta.signs = {("sym", k): v for k, v in signs.items()}
+        if concrete:
+            sym = lambda n_, signs=signs: num(signs[n_]) if n_ in signs else _sym(n_)  # noqa: E731
+        else:
+            sym = _sym
         if nvars == 1:
             T = Rec(PT, {"variables": DictV({x: sym("t1"), i: sym("s")}), "constant": sym("c")})
             rows = [Rec(PT, {"variables": DictV({x: sym("a1"), i: sym("e1")}), "constant": sym("c1")})]
             forb = [x]
-        else:
+        elif nvars == 2:
             T = Rec(PT, {"variables": DictV({x: sym("t1"), y: sym("t2")}), "constant": sym("c")})
             rows = [
                 Rec(PT, {"variables": DictV({x: sym("a1"), i: sym("e1")}), "constant": sym("c1")}),
                 Rec(PT, {"variables": DictV({y: sym("a2"), i: sym("e2")}), "constant": sym("c2")}),
+            ]
+            forb = [x, y]
+        else:
+            # triangular: the second row couples both forbidden variables (rows and variables are not interchangeable)
+            T = Rec(PT, {"variables": DictV({x: sym("t1"), y: sym("t2")}), "constant": sym("c")})
+            rows = [
+                Rec(PT, {"variables": DictV({x: sym("a1"), i: sym("e1")}), "constant": sym("c1")}),
+                Rec(PT, {"variables": DictV({x: sym("b1"), y: sym("a2"), i: sym("e2")}), "constant": sym("c2")}),
             ]
             forb = [x, y]
         present = [k for k in (x, y, i) if any(k in r.f["variables"].d for r in rows) or k in T.f["variables"].d]
@@ -470,7 +494,7 @@ def _reduction_patterns(prog: Program, strategy: int, nvars: int, refine: bool):
         ta.ext_stubs["numpy.abs"] = lambda ta_, pos, kw: pos[0] if pos and isinstance(pos[0], tuple) and pos[0][:1] == ("opaque",) else (_ for _ in ()).throw(AnalysisError("numpy.abs of a symbolic value"))
         if strategy == 1:
             ta.stubs["PolyhedralTermList._get_kaykobad_context"] = lambda ta_, pos, kw, rows=rows, forb=forb: TupV([ListV(list(rows)), ListV(list(forb))])
-        desc = "term %s, rows %s, signs %s, refine=%s" % (_show_term(T), [_show_term(r) for r in rows], {k: ("+" if v > 0 else "-") for k, v in signs.items()}, refine)
+        desc = "term %s, rows %s, %s, refine=%s" % (_show_term(T), [_show_term(r) for r in rows], "numbers as shown" if concrete else "signs %s" % {k: ("+" if v > 0 else "-") for k, v in signs.items()}, refine)
         try:
             context = ta.construct("PolyhedralTermList", [ListV(list(rows))], {})
             res = ta.call(fi, [T, context, ListV(list(forb)), refine, num(strategy)])
@@ -478,7 +502,9 @@ def _reduction_patterns(prog: Program, strategy: int, nvars: int, refine: bool):
             if r.cls not in ("ValueError", "LinAlgError"):
                 bad.append("%s: raises %s" % (desc, r.cls))
             continue
-        except (Undecidable, AnalysisError) as ex:
+        except Undecidable:
+            continue  # a sign the code itself tests is not fixed by this sign pattern: the pattern says nothing
+        except AnalysisError as ex:
             undec.append("%s: %s" % (desc, ex))
             continue
         if not isinstance(res, Rec):
@@ -488,7 +514,13 @@ def _reduction_patterns(prog: Program, strategy: int, nvars: int, refine: bool):
         if any(v.name in rc for v in forb):
             bad.append("%s: the returned term still mentions a forbidden variable" % desc)
             continue
-        mus = [sym("t%d" % (k + 1)) / sym("a%d" % (k + 1)) for k in range(nvars)]
+        # true multipliers: (rows restricted to the forbidden variables)^T mu = (term restricted to them)
+        mt = ListV([ListV([r.f["variables"].d.get(v, num(0)) for r in rows]) for v in forb])
+        try:
+            mus = list(ta.linsolve(mt, ListV([T.f["variables"].d.get(v, num(0)) for v in forb])).items)
+        except Raised:
+            undec.append("%s: singular row system" % desc)
+            continue
         # residuals: T - (R + sum mu_k row_k) must vanish on every variable and on the constant
         ok_alg = True
         for v in (x, y, i):
@@ -506,13 +538,16 @@ def _reduction_patterns(prog: Program, strategy: int, nvars: int, refine: bool):
             bad.append("%s: the returned term %s is not the term minus a combination of the rows" % (desc, _show_term(res)))
             continue
         sg = [sign_under(mu, ta.signs) for mu in mus]
+        if any(s_ is None for s_ in sg):
+            returned -= 1  # the sign of a multiplier is not fixed by this sign pattern: nothing to conclude
+            continue
         wrong = [k for k, s_ in enumerate(sg) if (s_ < 0 if refine else s_ > 0)]
         if wrong:
             bad.append(
                 "%s: returns %s, obtained with a %s multiple of row %s - the result %s the term"
                 % (desc, _show_term(res), "negative" if refine else "positive", ", ".join(str(k + 1) for k in wrong), "does not imply" if refine else "is not implied by")
             )
-    return returned, bad, undec, 2 ** len(names)
+    return returned, bad, undec, len(combos)
 
 
 _ARBITRARY_ROWS_CACHE: Dict[str, Optional[bool]] = {}
@@ -525,9 +560,9 @@ def reduction_sound_for_arbitrary_rows(prog: Program) -> Optional[bool]:
         return _ARBITRARY_ROWS_CACHE[prog.digest]
     verdict: Optional[bool] = True
     try:
-        for nvars in (1, 2):
+        for nvars, conc in ((1, False), (2, False), (3, False), (3, True)):
             for refine in (True, False):
-                returned, bad, undec, _n = _reduction_patterns(prog, 1, nvars, refine)
+                returned, bad, undec, _n = _reduction_patterns(prog, 1, nvars, refine, concrete=conc)
                 if bad:
                     verdict = False
                 elif undec and verdict:
@@ -549,16 +584,26 @@ def rule_context_reduction_certificate(ctx: Ctx, rule: str = "context-reduction-
     key = "PolyhedralTermList._context_reduction"
     fi = prog.func(key)
     n_ret = 0
-    for nvars in (1, 2):
+    for nvars in (1, 2, 3):
         for refine in (True, False):
             returned, bad, undec, total = _reduction_patterns(prog, 5, nvars, refine)
             n_ret += returned
-            construct = "_context_reduction (strategy 5, %s, %d forbidden variable%s): rows enter the combination with the right sign" % ("refine" if refine else "relax", nvars, "" if nvars == 1 else "s")
+            construct = "_context_reduction (strategy 5, %s, %s): rows enter the combination with the right sign" % ("refine" if refine else "relax", {1: "1 forbidden variable", 2: "2 forbidden variables, one row each", 3: "2 forbidden variables, a row coupling both"}[nvars])
             if bad:
                 ctx.violation(rule, key, construct, "%d of %d returning sign patterns are unsound; first: %s" % (len(bad), returned, bad[0]), where=fi.where)
             elif undec:
                 ctx.cannot_decide(rule, key, construct, undec[0])
             else:
                 ctx.ok(rule, key, construct + " (%d returning patterns of %d)" % (returned, total))
+    for refine in (True, False):
+        returned, bad, undec, total = _reduction_patterns(prog, 5, 3, refine, concrete=True)
+        n_ret += returned
+        construct = "_context_reduction (strategy 5, %s, a row coupling both forbidden variables, small integer coefficients): rows enter the combination with the right sign" % ("refine" if refine else "relax")
+        if bad:
+            ctx.violation(rule, key, construct, "%d of %d returning cases are unsound; first: %s" % (len(bad), returned, bad[0]), where=fi.where)
+        elif undec:
+            ctx.cannot_decide(rule, key, construct, undec[0])
+        else:
+            ctx.ok(rule, key, construct + " (%d returning cases of %d)" % (returned, total))
     ctx.extra["reduction_sound_for_arbitrary_rows"] = reduction_sound_for_arbitrary_rows(prog)
     ctx.floor("context-reduction returning sign patterns", n_ret, 8)
